@@ -95,8 +95,8 @@ def stub_shape(fn, prog=None, scalar='double'):
             return False, 'stub has another effect (%s at %s)' % (e[0], e[2])
         elif e[0] == 'call':
             return False, 'stub calls %s' % e[1][0]
-    if E.trace.static_locals or E.trace.globals_written:
-        return False, 'stub keeps state (%s)' % (E.trace.static_locals or list(E.trace.globals_written))[:1]
+    if E.trace.mutable_statics or E.trace.globals_written:
+        return False, 'stub keeps state (%s)' % (E.trace.mutable_statics or list(E.trace.globals_written))[:1]
     if 'MASA ERROR' not in text:
         return False, "no string literal containing 'MASA ERROR' is printed"
     if o.ret != ('neg', terms.num(Fraction(133, 100))) and o.ret != terms.num(Fraction(-133, 100)):
